@@ -81,7 +81,10 @@ FactorVerdict2(ev, F, pat, m, n, u, uok, reuse, ilu, wfilu) ==
                  /\ DL[<<pos(i), j>>] # r.st.W[<<i, j>>]
       umis == \E k \in 0..(cols - 1) : \E j \in k..((IF info = 0 THEN n ELSE ncols) - 1) :
                  DU[<<k, j>>] # r.st.W[<<r.st.piv[k + 1], j>>]
-      udiag0 == info = 0 /\ lvalsok /\ \E k \in 0..(n - 1) : CIsZero(DU[<<k, k>>])
+      \* U's diagonal lives in the supernodal storage; read as tokens so that the clause does not depend on the other
+      \* values being finite (a zero pivot that was divided by leaves inf / NaN everywhere else)
+      udiagTok(j) == LET e == SnodeEntry(ev.L, j, j) IN IF e[1] THEN At(ev.L.nzval, e[2]) ELSE (IF cplx THEN <<<<0, 0>>, <<0, 0>>>> ELSE <<0, 0>>)
+      udiag0 == info = 0 /\ m = n /\ \E k \in 0..(n - 1) : TokIsZero(udiagTok(k), cplx)
       bad ==
         (IF ~pcok THEN {"C02.perm_c_bijection"} ELSE {})
         \cup (IF info = 0 /\ ~prok THEN {"C02.perm_r_bijection"} ELSE {})
@@ -95,7 +98,7 @@ FactorVerdict2(ev, F, pat, m, n, u, uok, reuse, ilu, wfilu) ==
         \* already C04.success_on_singular; otherwise rounding turned an exact cancellation into a tiny pivot
         \cup (IF done /\ info = 0 /\ m = n /\ n <= 10 /\ StructurallySingular(pat, m, n) /\ ~(numeric /\ r.st.sing # 0)
               THEN {"C04.structural_missed_inexact"} ELSE {})
-        \cup (IF done /\ wf = "ok" /\ udiag0 THEN {"C02.U_zero_diagonal"} ELSE {})
+        \cup (IF done /\ wf = "ok" /\ udiag0 THEN {"C02.U_zero_diagonal", "C04.success_with_zero_on_U_diagonal"} ELSE {})
       arb ==
         \* anything TLC could not settle exactly goes to the rational side evaluator (rule S2 / float slice)
         (IF done /\ info = 0 /\ wf = "ok" /\ pcok /\ prok /\ ~ilu /\ ~(numeric /\ r.done = n /\ r.st.d2 /\ r.bad = {} /\ lvalsok /\ ~lmis /\ ~umis)
@@ -136,7 +139,7 @@ SolveVerdict(ev, opA, aok, n, Xcols, cplx, clause) ==
 
 FiniteNonNeg(t) == IF Len(t) = 2 THEN t[1] >= 0 ELSE (t[1] = 1 /\ t[5] < 80000)
 UTok(ev) == ev.opts.u
-UOK(ev) == TokOK(UTok(ev)) /\ RIsPow2(Dy(UTok(ev))) /\ UTok(ev)[2] >= 0 /\ UTok(ev)[2] <= 10
+UOK(ev) == TokOK(UTok(ev)) /\ (RIsZero(Dy(UTok(ev))) \/ RIsPow2(Dy(UTok(ev)))) /\ UTok(ev)[2] >= 0 /\ UTok(ev)[2] <= 10   \* u = 0 is legal: any nonzero pivot passes
 
 (***************************************************************************)
 (* ?gssv  (simple driver): C01, C02, C03, C04, C19 (ledger clause)          *)
@@ -240,11 +243,15 @@ RefineVerdict(rf, ev) ==
         \cup (IF ev.e = "RefineIter" /\ ev.count = 0 /\ ev.lstres # <<3, 0>> THEN {"C13.lstres_not_reset"} ELSE {})
         \cup (IF ev.e = "RefineStep" /\ ~(rf.want /\ ev.count = rf.count + 1) THEN {"C13.step_against_rule"} ELSE {})
         \cup (IF ev.e = "RefineStop" /\ rf.want THEN {"C13.stop_against_rule"} ELSE {})
-  IN [bad |-> bad, arb |-> {}, cov |-> (IF ev.e = "RefineStep" THEN {"C13.refinement_step_taken"} ELSE IF ev.e = "RefineStop" THEN {"C13.refinement_loop_checked"} ELSE {})]
+        \* BERR(j) is the backward error of the *returned* X: after an update the residual is evaluated again for the same
+        \* right-hand side before the loop is left (also after the fifth update)
+        \cup (IF rf.stepped /\ ~(ev.e = "RefineIter" /\ ev.j = rf.j) THEN {"C13.berr_not_recomputed_after_last_update"} ELSE {})
+  IN [bad |-> bad, arb |-> {}, cov |-> (IF ev.e = "RefineStep" THEN {"C13.refinement_step_taken"} \cup (IF ev.count = 5 THEN {"C13.fifth_step_taken"} ELSE {})
+                                        ELSE IF ev.e = "RefineStop" THEN {"C13.refinement_loop_checked"} ELSE {})]
 RefineNext(rf, ev) ==
-  IF ev.e = "RefineIter" THEN [j |-> ev.j, count |-> ev.count, want |-> (ev.gt_eps = 1 /\ ev.halved = 1 /\ ev.count < 5)]
-  ELSE IF ev.e = "RefineStep" THEN [rf EXCEPT !.count = ev.count, !.want = FALSE]
-  ELSE [j |-> -1, count |-> 0, want |-> FALSE]
+  IF ev.e = "RefineIter" THEN [j |-> ev.j, count |-> ev.count, want |-> (ev.gt_eps = 1 /\ ev.halved = 1 /\ ev.count < 5), stepped |-> FALSE]
+  ELSE IF ev.e = "RefineStep" THEN [rf EXCEPT !.count = ev.count, !.want = FALSE, !.stepped = TRUE]
+  ELSE [j |-> -1, count |-> 0, want |-> FALSE, stepped |-> FALSE]
 IsMemEvent(ev) == ev.e \in {"MemSetup", "UMalloc", "UFree", "ExpandBegin", "Expand", "Xpand", "InitExpands", "InitRetry", "WorkInit", "InitReturn", "WorkFree", "Col", "FactEnd"}
 
 \* helpers shared by the kernel and ILU verdicts
@@ -667,22 +674,26 @@ MatchVerdict(ev) ==
             /\ (cplx => (ZeroTok(ev.A0[t][3][1]) \/ ZeroTok(ev.A0[t][3][2])))          \* modulus of a pure real / imaginary entry is a power of two
       W == [ij \in {<<ev.A0[t][1], ev.A0[t][2]>> : t \in 1..Len(ev.A0)} |->
               MagExp(ev.A0[CHOOSE t \in 1..Len(ev.A0) : ev.A0[t][1] = ij[1] /\ ev.A0[t][2] = ij[2]][3], cplx)]
-      sing == StructSingular(W, n)
+      small == n <= 5                    \* enumeration of all matchings; above that Hall's condition and the dual certificate
+      lim == n <= 8
+      sing == IF small THEN StructSingular(W, n) ELSE HallViolated(W, n)
       p == [i \in Ix0(n) |-> ev.perm[i + 1]]
       pok == IsMatching(p, W, n)
       u == [i \in Ix0(n) |-> ev.u_log2[i + 1]]
       v == [i \in Ix0(n) |-> ev.v_log2[i + 1]]
       integral == ev.dual_dev_micro <= 1000
-      bad == IF ~dl \/ n > 5 THEN {} ELSE
+      certified == ev.job = 5 /\ integral /\ DualFeasible(u, v, p, W, n)       \* weak duality (MC_Match!DualCertifies)
+      optimal == IF small THEN Value(p, W, n) = MaxValue(W, n) ELSE (certified \/ Value(p, W, n) = MaxValueRec(W, n))
+      bad == IF ~dl \/ ~lim THEN {} ELSE
              (IF sing /\ ev.ret = 0 THEN {"C17.structural_singularity_not_reported"} ELSE {})
              \cup (IF ~sing /\ ev.ret # 0 THEN {"C17.nonsingular_reported_singular"} ELSE {})
              \cup (IF ~sing /\ ev.ret = 0 /\ ~pok THEN {"C17.not_a_matching_with_nonzero_diagonal"} ELSE {})
-             \cup (IF ~sing /\ ev.ret = 0 /\ pok /\ Value(p, W, n) # MaxValue(W, n) THEN {"C17.product_not_maximal"} ELSE {})
+             \cup (IF ~sing /\ ev.ret = 0 /\ pok /\ ~optimal THEN {"C17.product_not_maximal"} ELSE {})
              \cup (IF ~sing /\ ev.ret = 0 /\ pok /\ ev.job = 5 /\ ~integral THEN {"C17.scaling_not_integral_on_log_domain"} ELSE {})
              \cup (IF ~sing /\ ev.ret = 0 /\ pok /\ ev.job = 5 /\ integral /\ ~DualFeasible(u, v, p, W, n) THEN {"C17.scaling_not_unit"} ELSE {})
       bad2 == IF ev.arrays_same # 1 \/ ev.values_same # 1 THEN {"C17.caller_arrays_modified"} ELSE {}
-  IN [bad |-> bad \cup bad2 \cup LedgerCls(ev, "_ldperm"), arb |-> (IF dl /\ n <= 5 THEN {} ELSE {"C17.float_slice"}),
-      cov |-> (IF dl /\ n <= 5 THEN {IF sing THEN "C17.structurally_singular" ELSE "C17.matching_checked"} ELSE {})]
+  IN [bad |-> bad \cup bad2 \cup LedgerCls(ev, "_ldperm"), arb |-> (IF dl /\ lim THEN {} ELSE {"C17.float_slice"}),
+      cov |-> (IF dl /\ lim THEN {IF sing THEN "C17.structurally_singular" ELSE IF small THEN "C17.matching_checked" ELSE "C17.matching_checked_by_certificate"} ELSE {})]
 
 (***************************************************************************)
 (* File readers (C16): the returned compressed-column matrix is exactly the *)
@@ -751,7 +762,8 @@ Verdict(ev, pm, sc) ==
   IF ev.e = "Ret" THEN
      (CASE ev.fn = "gssv" -> GssvVerdict(ev)
         [] ev.fn = "gstrf" -> GstrfVerdict(ev)
-        [] ev.fn \in {"gssvx", "gsisx"} -> GssvxVerdict(ev, sc)
+        [] ev.fn \in {"gssvx", "gsisx"} -> LET gv == GssvxVerdict(ev, sc) IN
+                                            [gv EXCEPT !.bad = @ \cup (IF sc.rf.stepped THEN {"C13.berr_not_recomputed_after_last_update"} ELSE {})]
         [] ev.fn = "screen" -> ScreenVerdict(ev)
         [] ev.fn = "equ" -> EquVerdict(ev)
         [] ev.fn = "lacon" -> LaconVerdict(ev)
@@ -778,7 +790,7 @@ Verdict(ev, pm, sc) ==
 
 VARIABLES l, pm, sc, solo      \* solo: scenario id -> outputs of its calls when executed alone (C09)
 vars == <<l, pm, sc, solo>>
-NoCtx == [mode |-> "", cnt |-> 0, first |-> <<>>, repeat |-> FALSE, gref |-> <<>>, bown |-> <<0, 0, 0, 0>>, ordref |-> <<>>, rf |-> [j |-> -1, count |-> 0, want |-> FALSE], ref |-> <<>>, refd2 |-> FALSE, leaked |-> FALSE, memfail |-> FALSE, ty |-> "d", liw |-> 4, id |-> "", nexp |-> 0, memev |-> FALSE]
+NoCtx == [mode |-> "", cnt |-> 0, first |-> <<>>, repeat |-> FALSE, gref |-> <<>>, bown |-> <<0, 0, 0, 0>>, ordref |-> <<>>, rf |-> [j |-> -1, count |-> 0, want |-> FALSE, stepped |-> FALSE], ref |-> <<>>, refd2 |-> FALSE, leaked |-> FALSE, memfail |-> FALSE, ty |-> "d", liw |-> 4, id |-> "", nexp |-> 0, memev |-> FALSE]
 TInit == l = 1 /\ pm = <<>> /\ sc = NoCtx /\ solo = <<>>
 \* what a call returns to its caller (everything but the allocation ledger, which is global)
 ProjKeys == {"fn", "info", "equed", "perm_c", "perm_r", "etree", "R", "C", "L", "U", "X1", "B1", "A1v", "rcond", "rpg", "ferr", "berr", "steps",
